@@ -38,6 +38,38 @@ static void add_meta (SNDFILE *s, int format, int level)
 	{	SF_INSTRUMENT in ; memset (&in, 0, sizeof (in)) ; in.gain = 1 ; in.basenote = 60 ; in.velocity_hi = 127 ; in.key_hi = 127 ; in.loop_count = 1 ; in.loops [0].mode = SF_LOOP_FORWARD ; in.loops [0].start = 5 ; in.loops [0].end = 100 ; sf_command (s, SFC_SET_INSTRUMENT, &in, sizeof (in)) ; }
 	{	SF_CHUNK_INFO c ; memset (&c, 0, sizeof (c)) ; snprintf (c.id, sizeof (c.id), "Test") ; c.id_size = 4 ; c.datalen = 12 ; c.data = "custom chunk" ; sf_set_chunk (s, &c) ; }
 }
+/* hand-made corpus files: chunks the library reads but never writes itself (AIFF INST with loops + MARK; WAV smpl with loops + acid) */
+static void be16 (unsigned char **p, unsigned v) { *(*p)++ = v >> 8 ; *(*p)++ = v ; }
+static void be32w (unsigned char **p, uint32_t v) { *(*p)++ = v >> 24 ; *(*p)++ = v >> 16 ; *(*p)++ = v >> 8 ; *(*p)++ = v ; }
+static void le32w (unsigned char **p, uint32_t v) { *(*p)++ = v ; *(*p)++ = v >> 8 ; *(*p)++ = v >> 16 ; *(*p)++ = v >> 24 ; }
+static void le16w (unsigned char **p, unsigned v) { *(*p)++ = v ; *(*p)++ = v >> 8 ; }
+static void add_handmade (void)
+{	int nm, lp ;
+	for (nm = 0 ; nm <= 5 ; nm++) for (lp = 0 ; lp <= 2 ; lp++)
+	{	unsigned char *b = calloc (1, 2048), *p = b, *szp, *mk ; int i, frames = 200 ; if (ncorp >= 1398) { free (b) ; return ; }
+		memcpy (p, "FORM", 4) ; p += 4 ; szp = p ; p += 4 ; memcpy (p, "AIFF", 4) ; p += 4 ;
+		memcpy (p, "COMM", 4) ; p += 4 ; be32w (&p, 18) ; be16 (&p, 1) ; be32w (&p, frames) ; be16 (&p, 16) ; { static const unsigned char r8000 [10] = { 0x40, 0x0B, 0xFA, 0, 0, 0, 0, 0, 0, 0 } ; memcpy (p, r8000, 10) ; p += 10 ; }
+		memcpy (p, "MARK", 4) ; p += 4 ; mk = p ; p += 4 ; be16 (&p, nm) ; for (i = 0 ; i < nm ; i++) { be16 (&p, i + 1) ; be32w (&p, 10 * (i + 1)) ; *p++ = 3 ; memcpy (p, "mk ", 3) ; p += 3 ; }
+		{ uint32_t l = (uint32_t) (p - mk - 4) ; unsigned char *q = mk ; be32w (&q, l) ; }
+		memcpy (p, "INST", 4) ; p += 4 ; be32w (&p, 20) ; *p++ = 60 ; *p++ = 0 ; *p++ = 0 ; *p++ = 127 ; *p++ = 1 ; *p++ = 127 ; be16 (&p, 0) ;
+		be16 (&p, lp >= 1 ? 1 : 0) ; be16 (&p, 1) ; be16 (&p, 2) ; be16 (&p, lp >= 2 ? 1 : 0) ; be16 (&p, 3) ; be16 (&p, 4) ;
+		memcpy (p, "SSND", 4) ; p += 4 ; be32w (&p, 8 + frames * 2) ; be32w (&p, 0) ; be32w (&p, 0) ; for (i = 0 ; i < frames ; i++) be16 (&p, (unsigned) (i * 100) & 0xffff) ;
+		{ unsigned char *q = szp ; be32w (&q, (uint32_t) (p - b - 8)) ; }
+		corpus [ncorp].d = b ; corpus [ncorp].len = (long) (p - b) ; corpus [ncorp].format = SF_FORMAT_AIFF | SF_FORMAT_PCM_16 ; corpus [ncorp].ch = 1 ; corpus [ncorp].meta = 2 ; ncorp++ ;
+		}
+	for (lp = 0 ; lp <= 3 ; lp++)		/* WAV with smpl (lp loops declared, lp or lp-1 present) and acid chunks */
+	{	unsigned char *b = calloc (1, 2048), *p = b, *szp ; int i, frames = 200, present = lp == 3 ? 2 : lp ; if (ncorp >= 1398) { free (b) ; return ; }
+		memcpy (p, "RIFF", 4) ; p += 4 ; szp = p ; p += 4 ; memcpy (p, "WAVE", 4) ; p += 4 ;
+		memcpy (p, "fmt ", 4) ; p += 4 ; le32w (&p, 16) ; le16w (&p, 1) ; le16w (&p, 1) ; le32w (&p, 8000) ; le32w (&p, 16000) ; le16w (&p, 2) ; le16w (&p, 16) ;
+		memcpy (p, "smpl", 4) ; p += 4 ; le32w (&p, 36 + 24 * present) ; le32w (&p, 0) ; le32w (&p, 0) ; le32w (&p, 125000) ; le32w (&p, 60) ; le32w (&p, 0) ; le32w (&p, 0) ; le32w (&p, 0) ; le32w (&p, lp) ; le32w (&p, 0) ;
+		for (i = 0 ; i < present ; i++) { le32w (&p, i) ; le32w (&p, i % 3) ; le32w (&p, 10 + i) ; le32w (&p, 50 + i) ; le32w (&p, 0) ; le32w (&p, 0) ; }
+		memcpy (p, "acid", 4) ; p += 4 ; le32w (&p, 24) ; le32w (&p, 1) ; le16w (&p, 60) ; le16w (&p, 0x8000) ; le32w (&p, 0) ; le32w (&p, 4) ; le16w (&p, 4) ; le16w (&p, 4) ; le32w (&p, 0x42f00000) ;
+		memcpy (p, "data", 4) ; p += 4 ; le32w (&p, frames * 2) ; for (i = 0 ; i < frames ; i++) le16w (&p, (unsigned) (i * 100) & 0xffff) ;
+		{ unsigned char *q = szp ; le32w (&q, (uint32_t) (p - b - 8)) ; }
+		corpus [ncorp].d = b ; corpus [ncorp].len = (long) (p - b) ; corpus [ncorp].format = SF_FORMAT_WAV | SF_FORMAT_PCM_16 ; corpus [ncorp].ch = 1 ; corpus [ncorp].meta = 2 ; ncorp++ ;
+		}
+}
+
 static void build_corpus (void)
 {	int f, c, lv ;
 	for (f = 0 ; f < vh_nfmts ; f++) for (c = 1 ; c <= 2 ; c++) for (lv = 0 ; lv < 3 ; lv++)
@@ -51,6 +83,7 @@ static void build_corpus (void)
 		sf_writef_short (s, d, N) ; free (d) ; sf_close (s) ;
 		if (m.len > 0) { corpus [ncorp].d = m.d ; corpus [ncorp].len = (long) m.len ; corpus [ncorp].format = format ; corpus [ncorp].ch = c ; corpus [ncorp].meta = lv ; ncorp++ ; } else mv_free (&m) ;
 		}
+	add_handmade () ;
 }
 
 static const char *cur_fn = "?" ;
